@@ -158,7 +158,7 @@ is identified by the comma-join of the sorted names. -/
 def regularize : Machine (OMap (List Bytes)) where
   init := []
   step := fun m r =>
-    let key := Split.join [44] (sortBytes r.keys)
+    let key := joinKey (sortBytes r.keys)   -- any injective encoding of the sorted name list
     match m.get? key with
     | none => (m.put key r.keys, [r])
     | some order => (m, [order.map fun k => (k, (get r k).getD [])])
